@@ -19,18 +19,20 @@ const lbsPkg = modPath + "/benchstat"
 const istatsPkg = modPath + "/internal/stats"
 
 func checkC17(c *Ctx) {
-	c.Rule("C17/R1", "Sort resolves to sort.SliceStable (rows with equal keys keep first-appearance order)")
+	c.Rule("C17/R1", "Sort resolves to sort.SliceStable (rows with equal keys keep first-appearance order), and Reverse(order)(t,i,j) is order(t,j,i), a strict order again")
 	c.Rule("C17/R2", "outlier fence: quartiles are Percentile(0.25)/(0.75) of the raw values; fence q1-1.5(q3-q1) .. q3+1.5(q3-q1) computed unconditionally; a value is kept iff lo<=v && v<=hi, iterating the raw slice in order; min/max/mean are taken from the kept slice")
 	c.Rule("C17/R3", "row table (DESIGN Appendix A5): test error -> '~' with a note and no delta; p<alpha (strict) -> delta; equal means -> 0.00%; else (new/old-1)*100 with %+.2f%%; improvement iff (pct<0)==(metric!=speed); p/n note iff no other note and a test ran, with the retained sample sizes")
 	c.Rule("C17/R4", "the geomean takes a mean only when it is non-zero; configs/groups/benchmarks/units grow only through the append-if-absent helper in the metric-creation path")
 	c.Rule("C17/R5", "map order: every map range in the package is order-independent; metricOf's first-match pick over the suffix table is allow-listed with the side obligation that at most one entry can match")
 
+	c.Rule("C17/R6", "quartile interpolation (R8): with k the integer part of 1/3 + p(N+1/3), Percentile returns x[0] for k <= 0, x[N-1] for k >= N and x[k-1] + frac (x[k] - x[k-1]) otherwise — evaluated for N = 5 and every k from -1 to 6 by answering the clamp conditions from (k, N)")
 	p := mustLoad(c, loadOpts{}, "./benchstat", "./internal/stats", "./storage/benchfmt")
 	c17Sort(c, p)
 	c17Fence(c, p)
 	c17Rows(c, p)
 	c17Geomean(c, p)
 	c17Maps(c, p)
+	c17Percentile(c, p)
 }
 
 func c17Sort(c *Ctx, p *Prog) {
@@ -52,6 +54,36 @@ func c17Sort(c *Ctx, p *Prog) {
 	})
 	stable := map[string]bool{"sort.SliceStable": true, "sort.Stable": true, "slices.SortStableFunc": true}
 	c.Check(n == 1 && stable[callee], R, "Sort:stable", p.pos(fn.Pos()), "rows are sorted with "+callee, "rows are sorted with "+callee+", which is not stable: rows with equal keys (ties under ByDelta, equal names across groups) lose first-appearance order")
+	// a stable sort keeps ties in place only under a strict order: the reversed order must be the order with its
+	// arguments exchanged (which is strict again), not its negation (which calls equal rows "less" both ways)
+	rev := p.Fn("benchstat", "Reverse")
+	if rev == nil || len(rev.AnonFuncs) != 1 {
+		c.Undecided(R, "anchor:benchstat.Reverse", "", "Reverse or its returned function not found")
+		return
+	}
+	cl := rev.AnonFuncs[0]
+	okRev, detail := false, "the returned function does not return a call of the given order"
+	for _, b := range cl.Blocks {
+		ret, ok := b.Instrs[len(b.Instrs)-1].(*ssa.Return)
+		if !ok || len(ret.Results) != 1 {
+			continue
+		}
+		call, ok := retVal(ret, 0).(*ssa.Call)
+		if !ok {
+			if u, isU := retVal(ret, 0).(*ssa.UnOp); isU && u.Op == token.NOT {
+				detail = "it returns the negation of the given order"
+			}
+			continue
+		}
+		args := call.Call.Args
+		if len(args) == 3 && len(cl.Params) == 3 && args[0] == cl.Params[0] && args[1] == cl.Params[2] && args[2] == cl.Params[1] {
+			okRev = true
+		} else {
+			detail = "the given order is not called with the two row indices exchanged"
+		}
+	}
+	c.Check(okRev, R, "Reverse:exchanges-arguments", p.pos(rev.Pos()), "Reverse(order)(t,i,j) is order(t,j,i)",
+		"Reverse does not yield the order with its arguments exchanged ("+detail+"): the result is not a strict order, so under the stable sort rows with equal keys (all '~' rows under ByDelta, every row of a single-configuration table) come out in reversed instead of first-appearance order")
 }
 
 func c17Fence(c *Ctx, p *Prog) {
@@ -262,6 +294,7 @@ func c17Rows(c *Ctx, p *Prog) {
 		errKind := ""  // "", "nil", "known", "other"
 		var sig, same, neg, notSpeed, noteEmpty, ran *bool
 		looseGate := false
+		wrongDirection := ""
 		unknown := ""
 		infeasible := false
 		for k, v := range o.Assign {
@@ -305,6 +338,12 @@ func c17Rows(c *Ctx, p *Prog) {
 			case s.Op == "binop" && s.Tok == token.EQL && strings.Contains(str, "Metric") && strings.Contains(str, "\"speed\""):
 				t := !v
 				notSpeed = &t
+			case s.Op == "binop" && s.Tok == token.EQL && strings.Contains(s.Args[0].String(), ".Unit") && s.Args[1].isConst() && s.Args[1].String() == "\"MB/s\"":
+				// the only unit whose metric is "speed" is MB/s itself (metricOf: exact match in the suffix table)
+				t := !v
+				notSpeed = &t
+			case strings.Contains(str, ".Unit") || strings.Contains(str, "hasBaseUnit") || strings.Contains(str, "HasSuffix"):
+				wrongDirection = k
 			case s.Op == "binop" && s.Tok == token.EQL && strings.Contains(str, "Note"):
 				noteEmpty = &vv
 			case s.Op == "binop" && s.Tok == token.EQL && strings.Contains(s.Args[0].String(), "#0") && s.Args[1].isConst():
@@ -315,6 +354,10 @@ func c17Rows(c *Ctx, p *Prog) {
 			}
 		}
 		if infeasible {
+			continue
+		}
+		if wrongDirection != "" {
+			c.Bad(R, "rows:direction-predicate", site, "the row logic branches on "+truncate(wrongDirection, 160)+", a predicate on the unit's spelling; the better direction is a property of the table's metric (improvement iff (pct<0) == (metric != speed)), and units such as read-MB/s have the metric read-speed, not speed, so their change marks, HTML classes and ByDelta order are inverted")
 			continue
 		}
 		if unknown != "" {
@@ -595,4 +638,129 @@ func suffixTableUnambiguous(p *Prog) (bool, string) {
 		}
 	}
 	return true, ""
+}
+
+func c17Percentile(c *Ctx, p *Prog) {
+	const R = "C17/R6"
+	fn := p.Method("internal/stats", "Sample", "Percentile")
+	if fn == nil {
+		c.Undecided(R, "anchor:Sample.Percentile", "", "not found")
+		return
+	}
+	site := p.pos(fn.Pos())
+	const N = 5
+	nCases := 0
+	for k := -1; k <= N+1; k++ {
+		k := k
+		var intEval func(s *Sym) (int64, bool)
+		intEval = func(s *Sym) (int64, bool) {
+			str := s.String()
+			switch {
+			case s.Op == "const" && s.Const != nil && s.Const.Kind() == constant.Int:
+				v, ok := constant.Int64Val(s.Const)
+				return v, ok
+			case s.Op == "convert" && strings.Contains(str, "math.Modf") && strings.Contains(str, "#0"):
+				return int64(k), true
+			case s.Op == "call" && s.Name == "len" && len(s.Args) == 1 && strings.Contains(s.Args[0].String(), "Xs"):
+				return N, true
+			case s.Op == "binop" && (s.Tok == token.ADD || s.Tok == token.SUB):
+				a, ok1 := intEval(s.Args[0])
+				b, ok2 := intEval(s.Args[1])
+				if ok1 && ok2 {
+					if s.Tok == token.ADD {
+						return a + b, true
+					}
+					return a - b, true
+				}
+			case s.Op == "convert" && len(s.Args) == 1 && s.Type != nil && isInteger(s.Type) && s.Args[0].Type != nil && isInteger(s.Args[0].Type):
+				return intEval(s.Args[0])
+			}
+			return 0, false
+		}
+		decide := func(s *Sym) (bool, bool) {
+			if s.Op != "binop" {
+				return false, false
+			}
+			a, ok1 := intEval(s.Args[0])
+			b, ok2 := intEval(s.Args[1])
+			if !ok1 || !ok2 {
+				return false, false
+			}
+			switch s.Tok {
+			case token.LSS:
+				return a < b, true
+			case token.LEQ:
+				return a <= b, true
+			case token.GTR:
+				return a > b, true
+			case token.GEQ:
+				return a >= b, true
+			case token.EQL:
+				return a == b, true
+			case token.NEQ:
+				return a != b, true
+			}
+			return false, false
+		}
+		mk := func() *e6Interp {
+			return &e6Interp{PureCall: func(f *types.Func) bool { return true }, Decide: decide, MaxAtoms: 16}
+		}
+		outs, why := e6Enumerate(mk, fn.Blocks[0], nil, nil, 2048)
+		if why != "" && len(outs) == 0 {
+			c.Undecided(R, "Percentile", site, why)
+			return
+		}
+		named := map[string]*big.Rat{"frac": rat(1, 4), "oob": rat(-999, 1)}
+		for i := 0; i < N; i++ {
+			named[fmt.Sprintf("x%d", i)] = rat(int64(10*i*i+3), 1)
+		}
+		leaf := func(s *Sym) string {
+			if s.Op == "load" && s.Args[0].Op == "indexaddr" && strings.Contains(s.Args[0].Args[0].String(), "Xs") {
+				if i, ok := intEval(s.Args[0].Args[1]); ok {
+					if i < 0 || i >= N {
+						return "oob"
+					}
+					return fmt.Sprintf("x%d", i)
+				}
+			}
+			if s.Op == "extract" && s.Idx == 1 && strings.Contains(s.String(), "math.Modf") {
+				return "frac"
+			}
+			return ""
+		}
+		want := func(g func(string) *big.Rat) *big.Rat {
+			switch {
+			case k <= 0:
+				return g("x0")
+			case k >= N:
+				return g(fmt.Sprintf("x%d", N-1))
+			}
+			a, b := g(fmt.Sprintf("x%d", k-1)), g(fmt.Sprintf("x%d", k))
+			return rAdd(a, rMul(g("frac"), rSub(b, a)))
+		}
+		for _, o := range outs {
+			if o.Term != "return" || len(o.Results) != 1 {
+				continue
+			}
+			rs := o.Results[0].String()
+			if !strings.Contains(rs, "indexaddr") || strings.Contains(rs, "Bounds") || strings.Contains(rs, "NaN") {
+				continue
+			}
+			// only the unweighted branch
+			weighted := false
+			for ak, av := range o.Assign {
+				as := o.AtomSyms[ak]
+				if strings.Contains(ak, "Weights") && as.Op == "binop" && ((as.Tok == token.EQL && !av) || (as.Tok == token.NEQ && av)) {
+					weighted = true
+				}
+			}
+			if weighted {
+				continue
+			}
+			nCases++
+			ok, detail := e7Equal(o.Results[0], want, []map[string]*big.Rat{named}, leaf)
+			c.Check(ok, R, fmt.Sprintf("Percentile[N=%d k=%d]", N, k), site, "matches the R8 interpolation", fmt.Sprintf("for %d sorted values and integer part k=%d Percentile does not return the R8 value: %s (with k = N-1 the upper quartile of a small sample becomes its maximum, so a gross outlier is inside the fence and is kept)", N, k, detail))
+		}
+	}
+	c.Floor(R, "Percentile cases evaluated", nCases, 8)
 }
